@@ -5,16 +5,58 @@
 EXTENDS MC_ZoneStore
 
 CONSTANT MaxHist
-VARIABLE hist
+VARIABLES hist,
+  gcfg       \* what is fixed for the whole behaviour: [apx |-> index of the spelling of the
+             \* apex the zone is created with, br |-> the route by which it is built]
+
+\* ---- variants.  The API is driven with names in varying spellings and through
+\* its alternative routes; which one is used where is a deterministic function of
+\* the position in the behaviour (TLC's simulation varies the behaviours).
+\* Build routes:
+\*   "new"      parsed::Zonefile::new(apex, class), insert, ZoneBuilder::try_from, build
+\*   "soa"      parsed::Zonefile::default(): apex and class are taken from the SOA,
+\*              the first record
+\*   "origin"   Zonefile::new(<another name>, class), then set_origin(apex)
+\*   "text"     presentation format -> inplace::Zonefile -> Zone::try_from
+\*   "builder"  ZoneBuilder::new + insert_zone_cut / insert_cname / insert_rrset with the
+\*              classification of BuildStore
+\* Query routes: "zone" = Zone::read().query(); "tree" = the zone is looked up in a
+\*   ZoneTree (find_zone / get_zone) among other zones first.
+\* Observation routes: "msg" = Answer::to_message; "get" = rcode() / content() / first().
+BuildRoutes == <<"new", "soa", "origin", "text", "builder">>
+Mix(a, b) == (a * 1103 + b * 769 + 13) % 1009
+NameNum(n) == IF n = <<>> THEN 0 ELSE n[1][1] + 3 * Len(n) + (IF Len(n) > 1 THEN 7 * n[2][1] ELSE 0)
+TypeOrder == <<"SOA", "NS", "A", "AAAA", "CNAME", "DS", "TXT", "ANY">>
+TypeNum(t) == CHOOSE i \in 1..Len(TypeOrder) : TypeOrder[i] = t
+\* (not the length of the history: the expectation is part of the history)
+Pos == 3 * nops + 5 * current + 7 * Cardinality(zf) + 11 * Cardinality(store.nodes) + gcfg.apx + 2 * gcfg.br
+ApexSp == ApexSpellings[gcfg.apx]
+
+\* the query (qn, qt) as it is put to the API at this point of the behaviour
+QSpell(qn, qt) ==
+  LET h == Mix(Pos, NameNum(qn) * 11 + TypeNum(qt))
+  IN [sq |-> SpellAbs(qn, h % (2 ^ Len(qn)), 1 + ((h \div 8) % 3)),
+      rt |-> IF (h \div 32) % 3 = 0 THEN "tree" ELSE "zone",
+      ob |-> IF (h \div 128) % 3 = 0 THEN "get" ELSE "msg"]
 
 \* expectation for one query against version v: the admissible answers
 \* (ideal), and -- where the transcription with the open deviations predicts
 \* something else -- each such answer with the deviations that explain it
 Chk(v, qn, qt) ==
-  LET e == Admissible(v, qn, qt)
-      c == ConcreteAnswer(store, v, qn, qt, Dev)
-  IN [v |-> v, qn |-> qn, qt |-> qt, exp |-> e,
-      dev |-> {[ans |-> a, blame |-> BlameOf(v, qn, qt, a)] : a \in c \ e}]
+  LET s == QSpell(qn, qt)
+      e == AnswerAbs(committed[v], ApexLabels, s.sq, qt)
+      c == QueryAbs(store, v, ApexSp, s.sq, qt, Dev)
+  IN [v |-> v, qn |-> qn, qt |-> qt, exp |-> e, sq |-> s.sq, rt |-> s.rt, ob |-> s.ob,
+      dev |-> {[ans |-> a, blame |-> IF a = OutOfZone THEN {} ELSE BlameOf(v, qn, qt, a)] : a \in c \ e}]
+\* names outside the zone: query() says so; a server that looks the name up in its
+\* ZoneTree finds no zone and answers REFUSED
+ChkOut(v, full, k) ==
+  LET tree == Mix(Pos, k) % 2 = 0
+      c == QueryAbs(store, v, ApexSp, full, "A", Dev)
+      e == IF tree THEN {Refused} ELSE AnswerAbs(committed[v], ApexLabels, full, "A")
+  IN [v |-> v, qn |-> full, qt |-> "A", sq |-> full, rt |-> IF tree THEN "tree" ELSE "zone", ob |-> "msg",
+      exp |-> e, dev |-> {[ans |-> a, blame |-> {}] : a \in (IF tree THEN {} ELSE c \ e)}]
+OutChks(v) == {ChkOut(v, OutProbeSeq[i], i) : i \in DOMAIN OutProbeSeq}
 
 \* C09: the reference is the answer the version gave when it was published
 Chk9(v, qn, qt) ==
@@ -32,9 +74,28 @@ NoWalk == [on |-> FALSE]
 
 FreshPoint == act.a \in {"Build", "CommitPushVersion", "DropWriter"}
 
+\* the action as the executor performs it: names spelled, routes chosen
+HasName == act.a \in {"ZfInsert", "ZfReject", "W_UpdateChild", "W_UpdateRrset", "W_RemoveRrset", "W_RemoveAll",
+                      "W_MakeRegular", "W_MakeCname", "W_MakeZoneCut", "U_AddRecord", "U_DeleteRecord"}
+BuildParts ==       \* the classification BuildStore makes, for the "builder" route
+  LET S == BuildStore(zf)
+  IN [cuts |-> {[n |-> n, ns |-> Stored(S, 0, n).ns, ds |-> Stored(S, 0, n).ds, glue |-> Stored(S, 0, n).glue] :
+                  n \in {m \in S.nodes : Stored(S, 0, m).k = "Cut"}},
+      cnames |-> {[n |-> n, x |-> Stored(S, 0, n).val] : n \in {m \in S.nodes : Stored(S, 0, m).k = "Cname"}},
+      plain |-> {[n |-> p[1], t |-> p[2], xs |-> LiveVals(S, 0, p[1], p[2])] :
+                   p \in {q \in (S.nodes \cup {Apex}) \X Types : LiveVals(S, 0, q[1], q[2]) # {}}}]
+OpOut ==
+  LET h == Mix(Pos, 7)
+      base == act @@ [apx |-> ApexSp, br |-> BuildRoutes[gcfg.br]]
+  IN IF HasName THEN base @@ [sn |-> SpellAbs(act.n, h % (2 ^ Len(act.n)), 1 + ((h \div 8) % 3))]
+     ELSE IF act.a = "Open" THEN base @@ [diff |-> h % 2 = 0]
+     ELSE IF act.a = "Build" /\ BuildRoutes[gcfg.br] = "builder" THEN base @@ [parts |-> BuildParts]
+     ELSE base
+
 StepOut ==
-  [op |-> act,
-   chk |-> IF act.a \in {"Build", "CommitPushVersion"} THEN {Chk(current, q[1], q[2]) : q \in Queries}
+  [op |-> OpOut,
+   chk |-> IF act.a \in {"Build", "CommitPushVersion"}
+             THEN {Chk(current, q[1], q[2]) : q \in Queries} \cup OutChks(current)
            ELSE IF act.a = "DropWriter" THEN {Chk9(current, q[1], q[2]) : q \in Queries}
            ELSE IF act.a = "ReaderQuery" THEN {Chk9(act.v, act.qn, qt) : qt \in QTypes}
            ELSE {},
@@ -45,7 +106,8 @@ StepOut ==
    walk |-> IF FreshPoint THEN WalkChk(current)
             ELSE IF act.a = "ReaderWalk" THEN WalkChk(act.v) ELSE NoWalk]
 
-GenInit == Init /\ hist = <<>>
+GCfgs == [apx : 1..3, br : 1..Len(BuildRoutes)]
+GenInit == Init /\ hist = <<>> /\ gcfg \in GCfgs
 
 \* ---- directed generator for the zone-file route: every valid combination of
 \* two delegations (a. and b.), their name servers (a.a. below the first cut,
@@ -59,14 +121,18 @@ DelegationRecs ==
 DirectedZones ==
   {z \in {{Rec(Apex, "SOA", 1)} \cup s : s \in SUBSET DelegationRecs} :
      ValidZone(z) /\ \E r \in z : TypeOf(r) = "NS"}
-GenInitDirected == (\E z \in DirectedZones : InitWith(z)) /\ hist = <<>>
+GenInitDirected ==
+  /\ \E z \in DirectedZones : InitWith(z)
+  /\ hist = <<>>
+  /\ gcfg = [apx |-> 1 + (Cardinality(zf) % 3),
+             br |-> 1 + ((Cardinality(zf) + Cardinality({r \in zf : TypeOf(r) = "A"})) % Len(BuildRoutes))]
 \* padding keeps every behaviour alive up to MaxHist steps (one CASE line each)
 Pad == UNCHANGED vars /\ hist' = Append(hist, [op |-> [a |-> "Pad"], chk |-> {}, chk9 |-> {}, walk |-> NoWalk])
-GenNext == Len(hist) < MaxHist /\ ((Next /\ hist' = Append(hist, StepOut')) \/ Pad)
-GenSpec == GenInit /\ [][GenNext]_<<vars, hist>>
-GenSpecDirected == GenInitDirected /\ [][GenNext]_<<vars, hist>>
+GenNext == Len(hist) < MaxHist /\ UNCHANGED gcfg /\ ((Next /\ hist' = Append(hist, StepOut')) \/ Pad)
+GenSpec == GenInit /\ [][GenNext]_<<vars, hist, gcfg>>
+GenSpecDirected == GenInitDirected /\ [][GenNext]_<<vars, hist, gcfg>>
 
-GenView == <<svars, hist>>
+GenView == <<svars, hist, gcfg>>
 
 EmitBehaviour ==
   Len(hist) = MaxHist => PrintT("CASE " \o ToJson([steps |-> hist]))
